@@ -11,7 +11,11 @@ prescribes on that state:
     with compare key = op key, no range_end, plain failure Get): success flag, the key-values of the
     range responses of the executed branch, the write revision (fresh, and visible in later reads);
   * every other structurally valid transaction: must be answered with an error, and the following
-    full-range read must show the unchanged state;
+    full-range read must show the unchanged state — in particular a transaction guarded by the compare of
+    Kubernetes' compaction probe, Version(compact_rev_key) == n, that is not EXACTLY the probe (one plain put and one
+    plain Get, both on compact_rev_key): answered without an error it is `txn-near-compact-probe-swallowed` (before
+    /repo 2870609 it got the probe's canned answer: neither rejected nor executed); the probe itself gets the canned
+    answer (deliberate emulation, correspondence only) and must not be refused (`txn-compact-probe-refused`);
   * point and range reads: kvs in key order, more, count, header revision — on bounds (incl. empty,
     inverted, from-key, and bounds of the form key+\x00: the continue key of a paginated list, the end of a
     single-key range — judged on RAW keys), limits, count_only (also at an explicit revision: the count of
@@ -382,11 +386,27 @@ def shape_of(t, neg=False):
     return None
 
 
-def is_compact_shape(t):
-    """Kubernetes' compactor: If(version(compact_rev_key)=n) Then(Put compact_rev_key) Else(Get compact_rev_key).
-    kubebrain answers it with a canned "not your turn" without executing anything (kv.go: compact())."""
+def has_probe_compare(t):
+    """The transaction is guarded by the compare of Kubernetes' compaction probe, Version(compact_rev_key) == n — all that
+    kv.go's isCompact looked at (besides the KIND of the two ops) before /repo 2870609."""
     c = t["cmp"]
     return len(c) == 1 and c[0]["target"] == "ver" and c[0]["key"] == COMPACT_KEY
+
+
+def is_compact_probe(t):
+    """EXACTLY Kubernetes' compaction probe (k8s.io/apiserver/pkg/storage/etcd3/compact.go), independent restatement of
+    `KB.Etcd.CompactProbe`: If(Version(compact_rev_key) = n) Then(Put compact_rev_key v) Else(Get compact_rev_key) — one
+    compare without range_end, ONE put on that key without flags, ONE plain Get of that key. kubebrain answers it with a
+    canned "not your turn" without executing anything (kv.go: compact()); NOTHING ELSE may be answered that way."""
+    c, s, f = t["cmp"], t["then"], t["else"]
+    return has_probe_compare(t) and c[0]["result"] == "eq" and not c[0]["end"] and \
+        len(s) == 1 and s[0]["t"] == "put" and s[0]["key"] == COMPACT_KEY and not s[0]["flags"] and \
+        len(f) == 1 and plain_get(f[0], COMPACT_KEY)
+
+
+def is_canned_probe_answer(res):
+    """RPCServer.compact(): Succeeded=false, header 0, one range response holding one EMPTY key-value"""
+    return res[0] == "ok" and not res[1] and res[2] == 0 and res[3] == [("range", [(b"", b"", 0)])]
 
 
 def near_miss_category(t):
@@ -652,12 +672,25 @@ def oracle(case, tolerated=()):
                 # whether the write was applied is unknown, the rest of this script cannot be judged
                 case.meta["inconclusive"] = True
                 break
-            if is_compact_shape(tx):
-                continue        # deliberate emulation, correspondence only (see assumptions)
+            if is_compact_probe(tx):
+                # deliberate emulation (the canned "not your turn"; kubebrain compacts on its own): what it answers is checked for
+                # model/implementation correspondence only — but kube-apiserver's compactor must not be REFUSED
+                if res[0] == "err":
+                    hit(i, "Kubernetes' compaction probe (compare, put and plain Get on compact_rev_key) was refused with an error: "
+                           "kube-apiserver's compactor sends exactly this transaction and expects the canned 'not your turn'", "txn-compact-probe-refused")
+                    break
+                continue
             if shp is not None and shp[0] == "gdelete0" and res[0] == "err":
                 continue        # a zero-guarded delete is refused as an unsupported shape (kv.go after 4c41c58)
             if shp is None:
                 # any other shape: rejected with an error, never executed as something else
+                if res[0] != "err" and has_probe_compare(tx):
+                    # (before /repo 2870609 isCompact compared only the compare and the KIND of the two ops)
+                    hit(i, "answered as the compaction probe (%s) although it is NOT the probe — the probe is If(Version(compact_rev_key)=n) "
+                           "Then(ONE plain Put compact_rev_key) Else(ONE plain Get compact_rev_key): this transaction was neither rejected nor "
+                           "executed (its put silently dropped, an invented key-value as the answer of its read); it must be rejected with an error"
+                           % ("the canned answer" if is_canned_probe_answer(res) else "no error"), "txn-near-compact-probe-swallowed")
+                    break
                 if res[0] != "err":
                     hit(i, "a transaction outside the supported shapes was executed instead of being rejected", near_miss_category(tx))
                     break
@@ -1130,6 +1163,44 @@ def near_misses(r, keys, sh):
     return out
 
 
+def probe(n=0, v=b"1", lease=0, limit=0):
+    """Kubernetes' compaction probe (compact.go): the compared version n, the new compact revision as the value"""
+    return txn([cmp_(COMPACT_KEY, n, "ver")], [put(COMPACT_KEY, v, lease)], [rng(COMPACT_KEY, limit=limit)])
+
+
+def near_probe_misses(r, keys):
+    """Near misses of the compaction probe: the probe's compare, Version(compact_rev_key) == n, but not the probe's ops — before
+    /repo 2870609 isCompact let every [put], [range] pair through and answered it with the canned probe answer (neither
+    rejected nor executed). All must be refused with an error and leave the store unchanged (theorem near_probe_rejected)."""
+    k = r.choice(keys)
+    k2 = r.choice([x for x in keys if x != k])
+    v = r.choice(GOOD_VALUES)
+    n = r.choice([0, 0, 1, r.randint(2, 60)])
+    K = COMPACT_KEY
+    c = cmp_(K, n, "ver")
+    return [
+        txn([c], [put(k, v)], [rng(K)]),                                    # put on another key
+        txn([c], [put(K, v)], [rng(k)]),                                    # put on the key, read of another key
+        txn([c], [put(k, v)], [rng(k2)]),                                   # both on other keys (the transaction of the refutation)
+        txn([c], [put(k, v)], [rng(k)]),                                    # an "update" guarded by the probe's compare
+        txn([c], [put(K, v)], [rng(K, K + b"\x00")]),                       # ranged read
+        txn([c], [put(K, v)], [rng(PREFIX + b"/", PREFIX + b"0")]),         # ranged read over the user keys
+        txn([c], [put(K, v)], [rng(K, flags="c")]),                         # read count_only
+        txn([c], [put(K, v)], [rng(K, flags="k")]),                         # read keys_only
+        txn([c], [put(K, v)], [rng(K, rev=INIT + r.randint(1, 3))]),        # read at a revision
+        txn([c], [put(K, v, flags="p")], [rng(K)]),                         # put with prev_kv
+        txn([c], [put(K, v, flags="v")], [rng(K)]),                         # put with ignore_value
+        txn([c], [put(K, v, flags="l")], [rng(K)]),                         # put with ignore_lease
+        txn([cmp_(K, n, "ver", end=K + b"\x00")], [put(K, v)], [rng(K)]),   # compare with range_end
+        txn([c], [put(K, v), put(k, v)], [rng(K)]),                         # two puts
+        txn([c], [put(K, v)], []),                                          # no failure branch
+        txn([c], [put(K, v)], [rng(K), rng(k)]),                            # two reads
+        txn([c], [dele(k)], [rng(K)]),                                      # a delete guarded by the probe's compare
+        txn([cmp_(K, n, "ver", "ne")], [put(K, v)], [rng(K)]),              # another compare result
+        txn([c, cmp_(k, 0)], [put(K, v)], [rng(K)]),                        # a second compare
+    ]
+
+
 def gen_unsupported(seed, i, engine, n_far, with_near=True):
     r = rng_for(seed, "c16/u/%d" % i)
     keys = r.sample(KEY_POOL, r.randint(3, 6))
@@ -1142,8 +1213,15 @@ def gen_unsupported(seed, i, engine, n_far, with_near=True):
     for _ in range(n_far):
         # a transaction of no supported shape, or (1 in 4) a near miss of a supported one: key mismatch,
         # range_end, zero guard, put flags, Get options — all must be refused and leave the store unchanged
-        if with_near and r.random() < 0.25:
+        x = r.random()
+        if with_near and x < 0.25:
             t = r.choice(near_misses(r, keys, sh))
+        elif with_near and x < 0.40:
+            # a near miss of the COMPACTION PROBE (its compare, other ops): refused like the others ...
+            t = r.choice(near_probe_misses(r, keys))
+        elif with_near and x < 0.44:
+            # ... and the probe itself: the canned answer (not refused), nothing executed
+            t = probe(r.choice([0, 1, r.randint(2, 60)]), r.choice(GOOD_VALUES), r.choice([0, 0, 5]), r.choice([0, 0, 1]))
         else:
             t = far_unsupported(r, keys)
         lines += [render_txn(t), "rev", full]
@@ -1194,6 +1272,31 @@ def witness_cases(engine):
         txn([cmp_(A, INIT + 1)], [put(A, V2)], [rng(A, rev=INIT + 3)]),
         txn([cmp_(A, INIT + 2)], [dele(A)], [rng(A, HI)]),
         txn([cmp_(A, INIT + 2)], [dele(A)], [rng(A, flags="k")])])
+    PC = cmp_(COMPACT_KEY, 0, "ver")
+    K = COMPACT_KEY
+    # theorem old_probe_recogniser_swallowed_put: the transaction of the refutation alone (etcd: Version(compact_rev_key) = 0 holds,
+    # /r/a := v9 at the next revision; kubebrain before 2870609: the canned answer, nothing written) — now refused
+    w["old_probe_recogniser_swallowed_put"] = refused([txn([PC], [put(A, V9)], [rng(B)])])
+    # theorems near_probe_rejected / near_probe_rejected_witness (formerly, /repo before 2870609: answered with the canned answer of
+    # the compaction probe — neither rejected nor executed); same thirteen transactions, same order
+    w["near_probe_rejected"] = refused([
+        txn([PC], [put(A, V9)], [rng(K)]),
+        txn([PC], [put(K, V9)], [rng(B)]),
+        txn([PC], [put(A, V9)], [rng(B)]),
+        txn([PC], [put(K, V9)], [rng(K, HI)]),
+        txn([PC], [put(K, V9)], [rng(K, flags="c")]),
+        txn([PC], [put(K, V9)], [rng(K, flags="k")]),
+        txn([PC], [put(K, V9)], [rng(K, rev=INIT + 3)]),
+        txn([PC], [put(K, V9, flags="p")], [rng(K)]),
+        txn([PC], [put(K, V9, flags="v")], [rng(K)]),
+        txn([PC], [put(K, V9, flags="l")], [rng(K)]),
+        txn([cmp_(K, 0, "ver", end=HI)], [put(K, V9)], [rng(K)]),
+        txn([PC], [put(K, V9), put(A, V9)], [rng(K)]),
+        txn([PC], [put(K, V9)], [])])
+    # theorem compact_probe_recognised: the probe itself (any compared version, value, lease, a limit on the point Get) gets the
+    # canned answer — it must not be refused — and nothing is executed
+    w["compact_probe_recognised"] = pre + [x for t in [probe(0, b"1"), probe(3, V9), probe(1, b"1007", lease=5), probe(0, b"1", limit=1)]
+                                           for x in (render_txn(t), "rev", FULL, render_range(COMPACT_KEY))]
     # theorems unguarded_delete_missing_flag / unguarded_delete_missing_witness: Succeeded=true now, as etcd
     w["unguarded_delete_missing"] = pre + [render_txn(t_udelete(D)), "rev", FULL, render_txn(t_udelete(A)), "rev", FULL]
     # a point Get with a limit is still the plain shape (kv.go isPlainGet, KB.Etcd.PlainGet): answered as etcd answers
@@ -1438,8 +1541,9 @@ def check(rep, tier, seed):
             histogram(rep, c)
             for ln in c.lines:
                 if ln.startswith("txn "):
-                    s = shape_of(parse_txn_line(ln))
-                    k = s[0] if s else "other"
+                    tx = parse_txn_line(ln)
+                    s = shape_of(tx)
+                    k = s[0] if s else ("compact_probe" if is_compact_probe(tx) else "near_compact_probe" if has_probe_compare(tx) else "other")
                     shapes[k] = shapes.get(k, 0) + 1
         for c in batch:
             hits = oracle(c)
@@ -1466,7 +1570,8 @@ def check(rep, tier, seed):
     rep.cov["rule"] = ("scripts for the `etcd` suite: the fixed witness scripts of the concrete theorems; random histories of the four "
                        "Kubernetes transaction shapes (correct / stale / zero expectations over existing, missing and deleted keys) "
                        "interleaved with point, range, limited and count_only reads and prefix watches; scripts of grammar-generated "
-                       "unsupported transactions and near misses of the supported shapes, each followed by a full-range read; the table "
+                       "unsupported transactions and near misses of the supported shapes and of the compaction probe (its compare, other ops), each followed by a full-range read; "
+                       "the probe itself (canned answer, must not be refused); the table "
                        "transaction shape x backend answer (scripted backend: `inject`), the lost-race answers on a consistent store, and real "
                        "races (a transaction parked at its storage calls while a writer commits). A script "
                        "is counted as distinct by the hash of its text; all generated scripts contain writes and reads (non-trivial).")
@@ -1491,4 +1596,8 @@ def check(rep, tier, seed):
         "a transaction answered 'uncertain' because the server's own 1 s deadline expired under load ends the judgement of its script (counted in scripts_cut_short_by_rpc_deadline)",
         "a watch refused at registration (event cache does not reach back to the start revision) is a forced relist, not a wrong event stream",
     ]
+    if not found:
+        # an acknowledged write that a range at "latest" does not return yet (parked earlier writer): known finding
+        from . import c16ack
+        found = c16ack.check(rep, tier)
     return found
